@@ -293,7 +293,13 @@ def _run_impl(c):
         from biom.cli.table_summarizer import _summarize_table
         return parse_report(_summarize_table(t, c['q'], c['o']), c['q'], c['o'])
     if k == 'ids':
-        return [str(i) for i in t.ids(axis='observation' if c['obs'] else 'sample')]
+        from biom.cli.table_ids import summarize_table as table_ids
+        with tempfile.TemporaryDirectory() as d:
+            p = _write(t, d)
+            buf = io.StringIO()
+            with contextlib.redirect_stdout(buf):
+                table_ids.callback(input_fp=p, observations=c['obs'])
+        return buf.getvalue().split('\n')[:-1]
     if k == 'head':
         from biom.cli.table_head import head
         with tempfile.TemporaryDirectory() as d:
@@ -774,8 +780,9 @@ def gen_case(rng, kind=None):
         spec = empty_spec(rng)
     else:
         spec = gen_spec(rng, mdkind=rng.choice([None, 'none']) if base == 'report' else 'none' if rng.random() < 0.7 else None)
-    if base == 'head' and not spec['sids']:
-        # the command reads a file, and to_json of a table without samples is not loadable (property C02)
+    if base in ('head', 'ids') and not (spec['sids'] and spec['oids']):
+        # the command reads a file; to_json of a table without samples is not loadable and one without
+        # observations loses its sample ids (property C02)
         spec = gen_spec(rng, mdkind='none')
     c = {'kind': k, 'spec': spec}
     r, n = len(spec['oids']), len(spec['sids'])
